@@ -9,7 +9,7 @@ import numpy
 from hypothesis import strategies as st
 
 from .. import arr as A
-from ..core import Failure, drive
+from ..core import peek, Failure, drive
 from ..gen import arrays as G
 from ..ref import commands as R
 
@@ -158,7 +158,7 @@ def check_history(case, rec):
             rec.label("step:" + ("writer" if kind in WRITERS else kind if kind == "reread" else "command"))
             # invariant over the whole pool
             for i, (cmd, fz, snap) in enumerate(pool):
-                why = unchanged(snap, cmd._result)
+                why = unchanged(snap, peek(cmd))
                 if why:
                     src = "producer" if i < len(case["producers"]) else "result of " + type(cmd).__name__
                     fails.append(Failure("mutated_by:%s|%s|%s" % (kind, src.split(" ")[0], why.split(" ")[0]),
@@ -236,8 +236,8 @@ def install_snapshot_wrappers():
     def run(self):
         was = self.is_finished
         orig(self)
-        if not was and self.is_finished and isinstance(self._result, numpy.ndarray):
-            _SNAP[id(self)] = (self.result_name, type(self).__name__, snapshot(self._result))
+        if not was and self.is_finished and isinstance(peek(self), numpy.ndarray):
+            _SNAP[id(self)] = (self.result_name, type(self).__name__, snapshot(peek(self)))
 
     Command.run = run
     _WRAPPED.add("run")
@@ -278,7 +278,7 @@ def check_program(model, rec):
             if c is None or id(c) not in _SNAP:
                 continue
             _, cls, snap = _SNAP[id(c)]
-            why = unchanged(snap, c._result)
+            why = unchanged(snap, peek(c))
             if why:
                 fails.append(Failure("program:mutated_result_of:%s|%s" % (cls, why.split(" ")[0]),
                                      "%s (%s) consumed by %r: %s\n%s" % (name, cls, consumers.get(name), why, text)))
